@@ -651,6 +651,29 @@ impl<'p, C: SimCfg> World<'p, C> {
                                 }
                                 inp.bytes = ggrs::verif::encode(&[], &frames);
                             }
+                            InputMutation::Piggyback { garbage, ack_delta, disconnect_player, last_frame } => {
+                                match garbage {
+                                    0 => {
+                                        let mut frames = orig.clone();
+                                        if let Some(f) = frames.last_mut() {
+                                            f.push(0x5a);
+                                        }
+                                        inp.bytes = ggrs::verif::encode(&[], &frames);
+                                    }
+                                    1 => {
+                                        let keep = inp.bytes.len() / 2;
+                                        inp.bytes.truncate(keep);
+                                    }
+                                    _ => inp.bytes = vec![0x80],
+                                }
+                                inp.ack_frame = inp.ack_frame.saturating_add(*ack_delta);
+                                if let Some(pl) = disconnect_player {
+                                    if let Some(st) = inp.peer_connect_status.get_mut(*pl) {
+                                        *st = MConn { disconnected: true, last_frame: *last_frame };
+                                    }
+                                }
+                                *self.probes.extra.entry("forged_piggyback").or_insert(0) += 1;
+                            }
                         }
                         if payload_changed {
                             // Only payloads that are NOT a valid encoding of right-sized frames are in the
